@@ -144,6 +144,21 @@ chk("C16", "proof",
     "Coq proof over hand model of the I/O pipeline; exhaustive small-string correspondence; entry-point differential",
     "DESIGN.md section 4 C16")
 
+chk("C11", "proof",
+    "Proved (Coq, closed under the global context) over Model/Pragma.v for every list of parsed pragmas (one per source line), every line and "
+    "rule id: a failure is suppressed iff some pragma covers its line and names its rule through an identifier that resolved; disable-next-line "
+    "covers exactly the following line and disable-num-lines N exactly the following N lines; a malformed pragma (command not understood, bad "
+    "or missing count, no identifier that resolves) suppresses nothing and is reported; the output with pragmas is the output without them "
+    "minus the suppressed failures (over the Report model of C07). The literal clause 'a malformed pragma suppresses nothing' is refuted for "
+    "pragmas mixing resolvable and unresolvable ids (witness; known finding). The text layer of the model (recognition, command/count/id "
+    "parsing against the translated rule table) is tied to the code by evaluating it on generated pragma lines against the parser's pragma "
+    "token, the reported pragma errors and the surviving failures. 'Invisible to the parser' is NOT proved: it is decided by enumeration "
+    "(every insertion point of a pragma line into all 2- and 3-line documents over a template vocabulary, tokens compared after shifting).",
+    "Trusted: Coq kernel + vm_compute, translator rule_table.py, direct parser call and API driver. Outside the model: counts that only "
+    "Python's int() accepts (underscores, non-ASCII digits).",
+    "Coq proof over hand model (tables + suppression); text-layer correspondence; enumeration for parser invisibility",
+    "DESIGN.md section 4 C11")
+
 NOT_YET = {}
 
 
